@@ -5,12 +5,14 @@
 package main
 
 import (
+	"bytes"
 	"encoding/json"
 	goerrors "errors"
 	"flag"
 	"fmt"
 	"go/ast"
 	"go/parser"
+	"go/printer"
 	"go/token"
 	"math"
 	"os"
@@ -901,6 +903,52 @@ func (m *lockedFS) WriteFile(name string, content []byte) error {
 	return m.in.WriteFile(name, content)
 }
 
+// sortComparators lists every call of a sort with a caller-supplied comparator in gen/ and gen/ir/ (non-test files,
+// verif hooks excluded): "file:function: comparator body" with the white space collapsed.
+func sortComparators(repo string) []string {
+	var out []string
+	for _, dir := range []string{"gen", "gen/ir"} {
+		files, _ := filepath.Glob(filepath.Join(repo, dir, "*.go"))
+		sort.Strings(files)
+		for _, path := range files {
+			base := filepath.Base(path)
+			if strings.HasSuffix(base, "_test.go") || strings.HasPrefix(base, "verif_") {
+				continue
+			}
+			fset, f := parseFile(path)
+			for _, d := range f.Decls {
+				fd, ok := d.(*ast.FuncDecl)
+				if !ok || fd.Body == nil {
+					continue
+				}
+				ast.Inspect(fd.Body, func(n ast.Node) bool {
+					c, ok := n.(*ast.CallExpr)
+					if !ok {
+						return true
+					}
+					switch callName(c) {
+					case "slices.SortStableFunc", "slices.SortFunc", "sort.Slice", "sort.SliceStable":
+					default:
+						return true
+					}
+					if len(c.Args) != 2 {
+						return true
+					}
+					var buf bytes.Buffer
+					if lit, ok := c.Args[1].(*ast.FuncLit); ok {
+						_ = printer.Fprint(&buf, fset, lit.Body)
+					} else {
+						_ = printer.Fprint(&buf, fset, c.Args[1])
+					}
+					out = append(out, dir+"/"+base+":"+fd.Name.Name+": "+strings.Join(strings.Fields(buf.String()), " "))
+					return true
+				})
+			}
+		}
+	}
+	return out
+}
+
 // factsGenOrder: (observed) the file names WriteSource writes for a document that needs every template, with
 // every feature on — one entry per WriteFile call; (syntactic) getBuffer resets the buffer it takes from the pool.
 func factsGenOrder(repo string) (string, int) {
@@ -960,8 +1008,10 @@ func factsGenOrder(repo string) (string, int) {
 	fmt.Fprintf(&sb, "/-- one entry per `WriteFile` call of `WriteSource` on a document that needs every template, all features on (sorted) -/\ndef writtenFiles : List String := %s\n", leanList(names))
 	fmt.Fprintf(&sb, "/-- the calls of `getBuffer`, in source order -/\ndef getBufferCalls : List String := %s\n", leanList(calls))
 	fmt.Fprintf(&sb, "/-- a `Reset` follows the pool's `Get` -/\ndef getBufferResets : Bool := %v\n", resets)
+	cmps := sortComparators(repo)
+	fmt.Fprintf(&sb, "/-- every sort with a caller-supplied comparator in gen/ and gen/ir/: `file:function: body` -/\ndef sortComparators : List String := %s\n", leanList(cmps))
 	sb.WriteString("end Facts.GenOrder\n")
-	return sb.String(), len(names) + 1
+	return sb.String(), len(names) + 1 + len(cmps)
 }
 
 // ---- conc: writes to package-level variables outside init (C19) ----
